@@ -10,7 +10,8 @@ import (
 
 // Op is one step of a frame. All fields are plain data so that programs serialise into replay files.
 type Op struct {
-	Kind   string `json:"kind"`              // pre | call | sstore | log | send | revert | invalid | burn | selfdestruct | stop
+	Kind string `json:"kind"` // pre | call | sstore | log | send | revert | invalid | burn | selfdestruct | stop | create
+	// create: CallOp "" = CREATE, "CREATE2" (salt = Key); Val selects the init code (CreateInit); Value is attached.
 	CallOp string `json:"call_op,omitempty"` // CALL | STATICCALL | DELEGATECALL | CALLCODE (pre, call)
 	Target string `json:"target,omitempty"`  // hex address (pre: the precompile; send/selfdestruct: beneficiary)
 	Child  int    `json:"child,omitempty"`   // call: index of the callee frame
@@ -72,6 +73,20 @@ func bigOf(s string) *big.Int {
 		panic("bad value " + s)
 	}
 	return v
+}
+
+// CreateInit returns the init code a create op deploys with: mode 0 reverts (nothing is created), mode 1 returns a
+// one-byte runtime (STOP), mode 2 first writes storage slot 1 of the new contract and then returns that runtime.
+func CreateInit(mode int) []byte {
+	ret := []byte{0x60, 0x00, 0x60, 0x00, 0x53, 0x60, 0x01, 0x60, 0x00, 0xf3}
+	switch mode % 3 {
+	case 0:
+		return []byte{0x60, 0x00, 0x60, 0x00, 0xfd}
+	case 1:
+		return ret
+	default:
+		return append([]byte{0x60, 0x07, 0x60, 0x01, 0x55}, ret...)
+	}
 }
 
 // Compile returns the runtime bytecode of every frame.
@@ -141,6 +156,24 @@ func (p Program) Compile() [][]byte {
 				} else {
 					// record flag+1
 					a.Push(1).Op(vm.ADD)
+					a.PushBytes(ResultSlot(i, j).Bytes()).Op(vm.SSTORE)
+				}
+			case "create":
+				init := CreateInit(int(op.Val))
+				a.MStoreBytes(0, init)
+				if op.CallOp == "CREATE2" {
+					a.Push(op.Key)
+				}
+				a.Push(uint64(len(init))).Push(0).PushBig(bigOf(op.Value))
+				if op.CallOp == "CREATE2" {
+					a.Op(vm.CREATE2)
+				} else {
+					a.Op(vm.CREATE)
+				}
+				if op.NoRecord {
+					a.Op(vm.POP)
+				} else {
+					a.Op(vm.ISZERO, vm.ISZERO).Push(1).Op(vm.ADD)
 					a.PushBytes(ResultSlot(i, j).Bytes()).Op(vm.SSTORE)
 				}
 			case "sstore":
